@@ -674,6 +674,24 @@ var c14Values = []c14Val{
 	{"${{ github }}", "object", true}, {"${{ github.event }}", "object", true}, {"${{ needs }}", "object", true}, {"${{ strategy }}", "object", true},
 	{"${{ fromJSON('[1, 2]') }}", "array", true},
 	{"pre ${{ 1 }}", "string", true}, {"${{ 1 }}${{ 2 }}", "string", true}, {"${{ true }} post", "string", true}, {"${{ 1 }}-${{ github.sha }}", "string", true},
+	// templates with two or three expressions: a string whatever the parts are
+	{"v${{ 'a' }}-${{ 'b' }}", "string", true}, {"${{ true }}${{ false }}", "string", true}, {"${{ 1 }}.${{ 2 }}.${{ 3 }}", "string", true},
+	{"${{ github.sha }}${{ 1 }}x", "string", true}, {"${{ 1 }} ${{ 2 }}", "string", true}, {"${{ 1 }}${{ true }}${{ 'x' }}", "string", true},
+	{"x${{ 12 }}y${{ 3.5 }}z", "string", true}, {"${{ github.ref_protected }}${{ github.retention_days }}", "string", true},
+}
+
+// multi: a template with two or more ${{ }} expressions.
+func (v c14Val) multi() bool { return strings.Count(v.Text, "${{") >= 2 }
+
+// c14Reps is the number of fresh Linters a call containing such a template is linted with.
+const c14Reps = 8
+
+func c14MultiValue(r *Rand) c14Val {
+	for {
+		if v := c14Values[r.Intn(len(c14Values))]; v.multi() {
+			return v
+		}
+	}
 }
 
 func c14ValueOfType(r *Rand, ty string) c14Val {
@@ -840,15 +858,10 @@ type c14TypedSite struct {
 	Val      c14Val
 }
 
-// c14LintCallerAST lints the caller with the reusable-workflow cache filled from the callees' parsed
-// ASTs (what happens in a multi-file run when the callee is visited first). The callee files are
-// removed before the caller is linted, so a fall-back to reading them cannot go unnoticed.
-func c14LintCallerAST(root string, calleeRels []string, callerRel string) ([]*actionlint.Error, error) {
-	proj, err := actionlint.NewProject(root)
-	if err != nil {
-		return nil, err
-	}
-	cache := actionlint.NewLocalReusableWorkflowCache(proj, root, nil)
+// c14ParseCallees parses the callees and returns their workflow_call events; the callee files are
+// removed afterwards, so that in "ast" mode a fall-back to reading them cannot go unnoticed.
+func c14ParseCallees(root string, calleeRels []string) ([]*actionlint.WorkflowCallEvent, error) {
+	var evs []*actionlint.WorkflowCallEvent
 	for _, rel := range calleeRels {
 		src, err := os.ReadFile(filepath.Join(root, rel))
 		if err != nil {
@@ -868,8 +881,24 @@ func c14LintCallerAST(root string, calleeRels []string, callerRel string) ([]*ac
 		if ev == nil {
 			return nil, fmt.Errorf("callee %s has no workflow_call event", rel)
 		}
-		cache.WriteWorkflowCallEvent(rel, ev)
+		evs = append(evs, ev)
+	}
+	for _, rel := range calleeRels {
 		os.Remove(filepath.Join(root, rel))
+	}
+	return evs, nil
+}
+
+// c14LintCallerAST lints the caller with a fresh Linter whose reusable-workflow cache was filled from
+// the callees' parsed ASTs (what happens in a multi-file run when the callee is visited first).
+func c14LintCallerAST(root string, calleeRels []string, evs []*actionlint.WorkflowCallEvent, callerRel string) ([]*actionlint.Error, error) {
+	proj, err := actionlint.NewProject(root)
+	if err != nil {
+		return nil, err
+	}
+	cache := actionlint.NewLocalReusableWorkflowCache(proj, root, nil)
+	for i, rel := range calleeRels {
+		cache.WriteWorkflowCallEvent(rel, evs[i])
 	}
 	lac := actionlint.NewLocalActionsCache(proj, nil)
 	opts := actionlint.LinterOptions{
@@ -891,6 +920,62 @@ func c14LintCallerAST(root string, calleeRels []string, callerRel string) ([]*ac
 		return nil, err
 	}
 	return l.LintFile(filepath.Join(root, callerRel), proj)
+}
+
+// c14RunModes lints the caller reps times per derivation mode, each time with a fresh Linter,
+// compares every result with the reference and additionally requires all repetitions of a mode to
+// give the same diagnostics (the verdict must not depend on map iteration order).
+func c14RunModes(c *Case, root string, p *c14WfProject, callerRel string, want []c14Finding, ignoreType, tolTemplate map[int]bool,
+	classify c14Classifier, detail func() map[string]interface{}, reps int, sampleFamily string) {
+	var evs []*actionlint.WorkflowCallEvent
+	for _, mode := range []string{"file", "ast"} {
+		if mode == "ast" {
+			var err error
+			if evs, err = c14ParseCallees(root, p.Callees); err != nil {
+				c.Violation("C14:workflow-ast:fatal-error", "a callee that lints clean could not be parsed for the AST derivation: "+err.Error(), detail())
+				return
+			}
+		}
+		var first []string
+		for rep := 0; rep < reps; rep++ {
+			var errs []*actionlint.Error
+			var err error
+			if mode == "file" {
+				errs, err = lintFileFresh(filepath.Join(root, callerRel), root, actionlint.LinterOptions{})
+			} else {
+				errs, err = c14LintCallerAST(root, p.Callees, evs, callerRel)
+			}
+			c.Eval(1)
+			c.Count("workflow_mode_"+mode, 1)
+			if err != nil {
+				c.Violation("C14:workflow-"+mode+":fatal-error", "linting the caller of a well-formed reusable workflow returned a fatal error: "+err.Error(), detail())
+				return
+			}
+			ds := toDiags(errs)
+			if rep > 0 {
+				c.Logf("  repetition %d", rep)
+			}
+			w := append([]c14Finding(nil), want...)
+			c14Compare(c, "workflow-"+mode, ds, w, ignoreType, tolTemplate, classify, detail)
+			cur := sortedDiagStrings(ds)
+			if rep == 0 {
+				first = cur
+				if c.Idx == 0 && mode == "file" {
+					c.Sample(map[string]interface{}{"family": sampleFamily, "files": c14PublicFiles(p.Files), "expected": c14FindingStrings(want), "diags": cur})
+				}
+			} else {
+				c.Count("workflow_repeated_lints", 1)
+				if strings.Join(cur, "\n") != strings.Join(first, "\n") {
+					m := detail()
+					m["first_run"] = first
+					m["repetition"] = rep
+					m["this_run"] = cur
+					c.Violation("C14:workflow-"+mode+":verdict-differs-between-repetitions",
+						fmt.Sprintf("the same call linted again with a fresh Linter gives different diagnostics (repetition %d): the verdict depends on map iteration order", rep), m)
+				}
+			}
+		}
+	}
 }
 
 type c14WfProject struct {
@@ -952,6 +1037,7 @@ func c14WorkflowCase(c *Case) {
 	siteIface := map[int]*c14Iface{}
 	var typed []c14TypedSite
 	var calls []*c14WfCall
+	hasMulti := false
 	nCalls := 1 + r.Intn(4)
 	for k := 0; k < nCalls; k++ {
 		call := &c14WfCall{Callee: r.Intn(len(p.Ifaces))}
@@ -1059,6 +1145,9 @@ func c14WorkflowCase(c *Case) {
 				continue
 			}
 			v := vals[i]
+			if v.multi() {
+				hasMulti = true
+			}
 			if v.Expr && (v.Ty == "object" || v.Ty == "array" || v.Ty == "null") {
 				tolTemplate[keyL[i]] = true
 			}
@@ -1159,26 +1248,12 @@ func c14WorkflowCase(c *Case) {
 		return c14ClassifyWorkflow(f, missed, siteIface[f.Line], typed)
 	}
 
-	for _, mode := range []string{"file", "ast"} {
-		var errs []*actionlint.Error
-		var err error
-		if mode == "file" {
-			errs, err = lintFileFresh(filepath.Join(root, callerRel), root, actionlint.LinterOptions{})
-		} else {
-			errs, err = c14LintCallerAST(root, p.Callees, callerRel)
-		}
-		c.Eval(1)
-		c.Count("workflow_mode_"+mode, 1)
-		if err != nil {
-			c.Violation("C14:workflow-"+mode+":fatal-error", "linting the caller of a well-formed reusable workflow returned a fatal error: "+err.Error(), detail())
-			return
-		}
-		w := append([]c14Finding(nil), want...)
-		c14Compare(c, "workflow-"+mode, toDiags(errs), w, ignoreType, tolTemplate, classify, detail)
-		if c.Idx == 0 && mode == "file" {
-			c.Sample(map[string]interface{}{"family": "local-workflow", "files": c14PublicFiles(p.Files), "expected": c14FindingStrings(want), "diags": sortedDiagStrings(toDiags(errs))})
-		}
+	reps := 1
+	if hasMulti {
+		reps = c14Reps
+		c.Count("workflow_calls_with_multi_expression_template", 1)
 	}
+	c14RunModes(c, root, p, callerRel, want, ignoreType, tolTemplate, classify, detail, reps, "local-workflow")
 	for _, f := range want {
 		c.SetAdd("expected_kinds", "workflow:"+f.What)
 	}
@@ -1194,6 +1269,9 @@ func c14ClassifyWorkflow(f c14Finding, missed bool, fc *c14Iface, typed []c14Typ
 				k := "literal"
 				if t.Val.Expr {
 					k = "expression"
+				}
+				if t.Val.multi() {
+					k = "multi-expression-template"
 				}
 				return t.Declared + "-from-" + t.Val.Ty + "-" + k
 			}
@@ -1331,10 +1409,94 @@ jobs:
 	}
 }
 
+// c14TemplateCase: one callee with several inputs of every type; one call that supplies all of
+// them, templates with two or three expressions sitting next to literal and single-expression
+// siblings of every type. Linted c14Reps times per derivation mode.
+func c14TemplateCase(c *Case) {
+	r := c.R
+	root := mkScratch("c14t")
+	defer os.RemoveAll(root)
+	f := &c14Iface{Kind: "workflow"}
+	nPer := 1 + r.Intn(3)
+	names := c14Names(r, 3*nPer+r.Intn(3), nil)
+	for i, n := range names {
+		f.Inputs = append(f.Inputs, c14In{Name: n, Type: []string{"string", "number", "boolean"}[i%3], Req: []int{0, 2}[r.Intn(2)], Desc: r.Bool()})
+	}
+	p := &c14WfProject{Files: map[string]string{".git/HEAD": "ref: refs/heads/main\n"}, Ifaces: []*c14Iface{f}, Callees: []string{".github/workflows/callee.yml"}}
+	p.Files[p.Callees[0]] = c14RenderCallee(r, f, "Callee")
+	writeFiles(root, p.Files)
+	if !c14CalleesClean(c, root, p) {
+		return
+	}
+	c.Count("local_interfaces", 1)
+
+	b := NewYB()
+	b.L(0, "on: push")
+	b.L(0, "jobs:")
+	b.L(2, "call:")
+	usesL := b.L(4, "uses: ./"+p.Callees[0]).Line
+	b.L(4, "with:")
+	var want []c14Finding
+	ignoreType := map[int]bool{}
+	var typed []c14TypedSite
+	siteIface := map[int]*c14Iface{usesL: f}
+	nMulti := 0
+	order := r.Perm(len(f.Inputs))
+	for k, i := range order {
+		in := &f.Inputs[i]
+		var v c14Val
+		switch {
+		case k == 0 || r.Intn(3) == 0:
+			v = c14MultiValue(r)
+			nMulti++
+		case r.Bool(): // a sibling whose value has exactly the declared type
+			v = c14ValueOfType(r, map[string]string{"string": "string", "number": "number", "boolean": "bool"}[in.Type])
+		default: // a sibling of any scalar type, literal or single expression
+			v = c14ValueOfType(r, []string{"string", "number", "bool"}[r.Intn(3)])
+		}
+		line := b.L(6, c14Key(c14CaseVariant(r, in.Name))+": "+v.Text).Line
+		typed = append(typed, c14TypedSite{line, in.Type, v})
+		ok, decided := c14Assignable(in.Type, v.Ty)
+		switch {
+		case !decided:
+			ignoreType[line] = true
+			c.Count("workflow_typed_value_not_compared", 1)
+		case ok:
+			c.Count("workflow_typed_value_assignable", 1)
+		default:
+			c.Count("workflow_typed_value_unassignable", 1)
+			want = append(want, c14Finding{c14Type, strings.ToLower(in.Name), line})
+		}
+		if v.multi() {
+			c.SetAdd("multi_template_pairs", in.Type+"<-template")
+		}
+	}
+	callerRel := ".github/workflows/caller.yml"
+	p.Files[callerRel] = b.String()
+	writeFiles(root, map[string]string{callerRel: p.Files[callerRel]})
+	if c.Verbose {
+		c14LogFiles(c, p.Files)
+	}
+	detail := func() map[string]interface{} {
+		return map[string]interface{}{"files": c14PublicFiles(p.Files), "interfaces": p.Ifaces}
+	}
+	classify := func(fd c14Finding, missed bool) string {
+		return c14ClassifyWorkflow(fd, missed, siteIface[fd.Line], typed)
+	}
+	c.Count("workflow_calls_with_multi_expression_template", 1)
+	c.Count("multi_expression_templates", nMulti)
+	c14RunModes(c, root, p, callerRel, want, ignoreType, nil, classify, detail, c14Reps, "workflow-templates")
+	for _, fd := range want {
+		c.SetAdd("expected_kinds", "workflow:"+fd.What)
+	}
+	c.Nontrivial("templates|" + c14FilesKey(p.Files))
+}
+
 func c14LocalFamilies(r *Run) []*Family {
 	return []*Family{
 		{Name: "local-action", N: r.Q(4000, 200000), Do: c14ActionCase},
 		{Name: "local-workflow", N: r.Q(4000, 200000), Do: c14WorkflowCase},
+		{Name: "workflow-templates", N: r.Q(600, 30000), Do: c14TemplateCase},
 		{Name: "workflow-literal-forms", N: len(c14LitForms), Do: c14LiteralFormsCase},
 	}
 }
